@@ -11,6 +11,15 @@ def build(c):
     from odc.geo.geobox import GeoBox
     from odc.geo.geom import BoundingBox
 
+    if c["pair"].endswith("big"):
+        s, d = c["pair"][:-3].split(">")
+        sbox, sshape = ((-3000000, -4000000, 1000000, -500000), (90, 90)) if s == "3575" else ((-20, 35, 40, 70), (70, 120))
+        src = GeoBox.from_bbox(sbox, f"epsg:{s}", shape=sshape, tight=True)
+        fp = src.footprint(f"epsg:{d}").boundingbox
+        x0, y0 = fp.left + 0.1 * c["dx"] * fp.span_x, fp.bottom + 0.1 * c["dy"] * fp.span_y
+        n = {"same": (50, 80), "coarser": (30, 40), "finer": (70, 90)}[c["zoom"]]
+        dst = GeoBox.from_bbox(BoundingBox(x0, y0, x0 + 0.7 * fp.span_x, y0 + 0.5 * fp.span_y, f"epsg:{d}"), shape=n, tight=True)
+        return src, dst
     s, d = c["pair"].split(">")
     src_crs, dst_crs = f"epsg:{s}", f"epsg:{d}"
     sb = BoundingBox(*LONLAT, "epsg:4326").to_crs(src_crs)
@@ -48,12 +57,67 @@ def table(src, dst):
     return T
 
 
+def _pix_map(a, b):
+    """pixel plane of `a` -> pixel plane of `b` through fresh pyproj (no odc-geo code involved)"""
+    import pyproj
+
+    tr = pyproj.Transformer.from_crs(a.crs.epsg, b.crs.epsg, always_xy=True)
+    A, B = a.affine, ~b.affine
+
+    def f(q, r):
+        wx, wy = A.a * q + A.b * r + A.c, A.d * q + A.e * r + A.f
+        sx, sy = tr.transform(wx, wy)
+        return B.a * sx + B.b * sy + B.c, B.d * sx + B.e * sy + B.f
+
+    return f
+
+
+def _envelope(f, rect, n):
+    """(xmin, xmax, ymin, ymax) of the image under f of n points per side of rect=(r0, r1, q0, q1)"""
+    r0, r1, q0, q1 = rect
+    qs, rs = np.linspace(q0, q1, n), np.linspace(r0, r1, n)
+    q = np.concatenate([qs, qs, np.full(n, q0), np.full(n, q1)])
+    r = np.concatenate([np.full(n, r0), np.full(n, r1), rs, rs])
+    x, y = f(q, r)
+    ok = np.isfinite(x) & np.isfinite(y)
+    if not ok.any():
+        return None
+    return float(x[ok].min()), float(x[ok].max()), float(y[ok].min()), float(y[ok].max())
+
+
+def _pixel_box(env, pad, w, h):
+    x0, x1, y0, y1 = env
+    return (max(0, math.floor(x0) - pad), min(w, math.ceil(x1) + pad), max(0, math.floor(y0) - pad), min(h, math.ceil(y1) + pad))
+
+
+def _covers(have, need):
+    return have[0] <= need[0] and have[1] >= need[1] and have[2] <= need[2] and have[3] >= need[3]
+
+
+def bulge_tags(src, dst, pad, roi_src):
+    """Environment facts for finding C03-K1 (fresh pyproj only): is the image of a rectangle edge so curved that
+    its extremum between the 5 sample points per side lies outside the sampled envelope (+ padding), in whole pixels?"""
+    tags = []
+    hs, ws = src.shape
+    hd, wd = dst.shape
+    back = _pix_map(dst, src)
+    sparse, dense = _envelope(back, (0, hd, 0, wd), 5), _envelope(back, (0, hd, 0, wd), 1025)
+    if sparse and dense and not _covers(_pixel_box(sparse, pad, ws, hs), _pixel_box(dense, 0, ws, hs)):
+        tags.append("dst_edge_image_bulges_past_5pt_envelope_plus_padding")
+    if roi_src[1] > roi_src[0] and roi_src[3] > roi_src[2]:
+        fwd = _pix_map(src, dst)
+        sparse, dense = _envelope(fwd, tuple(roi_src), 5), _envelope(fwd, tuple(roi_src), 1025)
+        if sparse and dense and not _covers(_pixel_box(sparse, 0, wd, hd), _pixel_box(dense, 0, wd, hd)):
+            tags.append("src_region_edge_image_bulges_past_5pt_envelope")
+    return tags
+
+
 def execute(c):
     from odc.geo.overlap import compute_reproject_roi
 
     from ..reproj_common import roi4
 
-    ev = {"c": c, "outcome": "ok", "hs": 0, "ws": 0, "hd": 0, "wd": 0, "T": [], "paste_ok": False,
+    ev = {"c": c, "tags": [], "outcome": "ok", "hs": 0, "ws": 0, "hd": 0, "wd": 0, "T": [], "paste_ok": False,
           "o": {"roi_src": [0, 0, 0, 0], "roi_dst": [0, 0, 0, 0], "shrink": 1, "scale64": 0}}
     try:
         src, dst = build(c)
@@ -67,24 +131,26 @@ def execute(c):
         ev["paste_ok"] = bool(rr.paste_ok)
         ev["o"] = {"roi_src": roi4(rr.roi_src), "roi_dst": roi4(rr.roi_dst), "shrink": int(rr.read_shrink) if float(rr.read_shrink).is_integer() else -1,
                    "scale64": int(round(rr.scale * 64))}
+        ev["tags"] = bulge_tags(src, dst, c["pad"][0] if c["pad"] else 1, ev["o"]["roi_src"])
     except Exception as ex:  # noqa: BLE001
         ev["outcome"] = type(ex).__name__
     return ev
 
 
 def _validate(ctx, events):
-    return ctx.validate("warp/CrossTrace.tla", events, "CrossTrace.cfg", batch=800)
+    return ctx.validate("warp/CrossTrace.tla", events, "CrossTrace.cfg", batch=200)
 
 
 def run_cross(ctx):
     res, cases = ctx.model_check("warp/CrossGen.tla", "CrossGen.cfg", emit=True, timeout=600)
     cases.sort(key=lambda c: json.dumps(c, sort_keys=True))
     ctx.extra["cross_crs_cases_total"] = len(cases)
-    cases = ctx.subsample(cases, 600 if ctx.quick() else 10 ** 6)
+    big = [c for c in cases if c["pair"].endswith("big")]
+    cases = ctx.subsample([c for c in cases if not c["pair"].endswith("big")], 600 if ctx.quick() else 10 ** 6) + big
     events = ctx.pmap(execute, cases)
     verdicts = _validate(ctx, events)
     for ev, v in zip(events, verdicts):
-        ctx.record(ev["c"], v, op="cross-crs:" + ev["c"]["pair"], nontrivial=ev["o"]["roi_dst"][1] > ev["o"]["roi_dst"][0],
+        ctx.record(ev["c"], v, op="cross-crs:" + ev["c"]["pair"], tags=ev["tags"], nontrivial=ev["o"]["roi_dst"][1] > ev["o"]["roi_dst"][0],
                    sample={"case": ev["c"], "plan": ev["o"], "shapes": [ev["hs"], ev["ws"], ev["hd"], ev["wd"]]})
     ctx.traces_validated += len(events)
 
@@ -93,5 +159,5 @@ def replay(ctx, obj):
     ev = execute(obj["case"])
     v = _validate(ctx, [ev])[0]
     print(f"replay: {json.dumps(ev)[:1500]} verdict={v}")
-    ctx.record(obj["case"], v, op=obj.get("op", ""))
+    ctx.record(obj["case"], v, op=obj.get("op", ""), tags=ev["tags"])
     ctx.traces_validated = 1
